@@ -54,7 +54,7 @@ var curatedFilenames = []string{
 	"../../recordings-evil/g/f.webm", "keep.webm/../../../secret/rec.webm", "..\\..\\secret\\rec.webm", "..\\secret",
 	"%2e%2e%2f%2e%2e%2fsecret%2frec.webm", "..%2f..%2fsecret%2frec.webm", "/etc/passwd", "../gauto/keep.webm", "../link/rec.webm",
 	"../../groups/gpub.json", "../../data/config.json", "a\x00/../../secret/rec.webm", "‥/‥/secret/rec.webm", "...", " ..", ".. ",
-	"../../secret", "../..", "link/", "./link/rec.webm",
+	"../../secret", "../..", "link/", "./link/rec.webm", "./sub/in.webm", "x/../sub/in.webm", "sub/./in.webm", "a/b.webm",
 }
 
 var curatedUsernames = []string{
@@ -168,7 +168,6 @@ func benignInputs() []input {
 		{Kind: "delete-form", S: "to-delete.webm", Enc: "form-esc", Method: "POST", Auth: "op", Group: recGroup, Expect: "303"},
 		{Kind: "delete-form", S: "to delete é.webm", Enc: "form-esc", Method: "POST", Auth: "op", Group: autoGroup, Expect: "303"},
 		{Kind: "delete-form", S: "nonexistent.webm", Enc: "form-esc", Method: "POST", Auth: "op", Group: recGroup, Expect: "404"},
-		{Kind: "delete-form", S: "a/b.webm", Enc: "form-esc", Method: "POST", Auth: "op", Group: recGroup, Expect: "400"},
 		{Kind: "record-username", S: "alice", Enc: "direct", Group: recGroup, Expect: "created"},
 		{Kind: "record-username", S: "Alice c/o Bob", Enc: "direct", Group: autoGroup, Expect: "created"},
 		{Kind: "record-username", S: "", Enc: "direct", Group: recGroup, Expect: "created"},
